@@ -101,6 +101,12 @@ func vh_C20_hashes() {
 		`(def h (hash 1 9001 2 2 3 3)) (str h)`,
 		`(let [x 9001 y 2 z 3] (+ x (* y z)))`,
 		`(defn f [a b c] (list c b a)) (str (f 9001 2 3))`,
+		// scopes print their symbols sorted: names that differ only in case,
+		// or that are prefixes of one another, must still come out in one order
+		`(def p (package "pk" (def ab 1) (def AB 2) (def Ab 9001))) (str p)`,
+		`(def p (package "pk" (def a 1) (def aa 2) (def A 9001))) (str p)`,
+		`(def h (hash ab: 1 AB: 2 Ab: 9001)) (list (str h) (keys h))`,
+		`(def p (package "pk" (def zz 1) (def inner (package "in" (def k 1) (def K 9001))))) (str p)`,
 	}
 	k := vChoice("program", len(progs))
 	run := func(e *Zlisp) string {
@@ -113,7 +119,7 @@ func vh_C20_hashes() {
 			case err != nil:
 				return out + "err:" + err.Error()
 			default:
-				out = r.SexpString(nil)
+				out = vMaskPointers(r.SexpString(nil))
 			}
 		}
 		return out
@@ -236,4 +242,25 @@ func vh_C20_fresh() {
 	vAssert(a == b && b == c, "same-program-same-result-in-a-later-fresh-interpreter")
 	vReach("fresh")
 	vReachIdx("fresh", k, len(vC20FreshPrograms))
+}
+
+// vMaskPointers replaces printed addresses (0x... up to the next
+// non-hex-digit) by a fixed word: pointer printing is excluded by the
+// property.
+func vMaskPointers(s string) string {
+	out := make([]byte, 0, len(s))
+	for i := 0; i < len(s); {
+		if i+1 < len(s) && s[i] == '0' && s[i+1] == 'x' {
+			j := i + 2
+			for j < len(s) && ((s[j] >= '0' && s[j] <= '9') || (s[j] >= 'a' && s[j] <= 'f')) {
+				j++
+			}
+			out = append(out, "PTR"...)
+			i = j
+			continue
+		}
+		out = append(out, s[i])
+		i++
+	}
+	return string(out)
 }
